@@ -14,6 +14,10 @@ import IQE.Gen.Window
 import IQE.Gen.Compiled
 import IQE.Gen.FrontDoor
 import IQE.Gen.OptGates
+import IQE.Gen.AggState
+import IQE.Gen.Coerce
+import IQE.Gen.PruningInt
+import IQE.Gen.MembershipGen
 
 open IQE.Gen
 
@@ -226,4 +230,79 @@ open IQE.Gen.OptGates
 #guard pj_overflow 2305843009213693951 4 3 == false
 #guard pg_negative 0 (-1) == true
 #guard ea_negative 0 0 == false
+end
+
+/-! ## AggState (C21): per-variant arms of morsel AccumulatorState::{merge, finalize} -/
+section
+open IQE.Gen.AggState
+-- `*a += b`
+#guard merge_count 2 3 == AccumulatorState.Count 5
+-- `*a += b; *sa |= *sb`
+#guard merge_sum_int 1 false 2 true == AccumulatorState.SumInt 3 true
+#guard merge_sum_int 1 false 2 false == AccumulatorState.SumInt 3 false
+-- float `+` is the parameter: here "keep the left operand"
+#guard merge_sum IQE.F64.posZero false IQE.F64.nan true (fun a _ => a) == AccumulatorState.Sum IQE.F64.posZero true
+#guard merge_avg IQE.F64.posZero 2 IQE.F64.posZero 3 (fun a _ => a) == AccumulatorState.Avg IQE.F64.posZero 5
+-- MIN: `if let Some(b) = b { match a { None => a = b, Some(a_val) => if cmp(b, a) == Less { a = b } } }`
+#guard merge_min none (some (.Int64 3)) (fun _ _ => .gt) == AccumulatorState.Min (some (.Int64 3))
+#guard merge_min (some (.Int64 5)) (some (.Int64 3)) (fun _ _ => .lt) == AccumulatorState.Min (some (.Int64 3))
+#guard merge_min (some (.Int64 5)) (some (.Int64 3)) (fun _ _ => .eq) == AccumulatorState.Min (some (.Int64 5))
+#guard merge_min (some (.Int64 5)) none (fun _ _ => .lt) == AccumulatorState.Min (some (.Int64 5))
+#guard merge_max (some (.Int64 5)) (some (.Int64 7)) (fun _ _ => .gt) == AccumulatorState.Max (some (.Int64 7))
+#guard merge_max (some (.Int64 5)) (some (.Int64 7)) (fun _ _ => .lt) == AccumulatorState.Max (some (.Int64 5))
+-- finalize
+#guard finalize_count 4 == ScalarValue.Int64 4
+#guard finalize_sum_int 9 false == ScalarValue.Null
+#guard finalize_sum_int 9 true == ScalarValue.Int64 9
+#guard finalize_sum IQE.F64.posZero false == ScalarValue.Null
+#guard finalize_avg IQE.F64.posZero 0 (fun _ => IQE.F64.nan) (fun a _ => a) == ScalarValue.Null
+#guard finalize_avg IQE.F64.posZero 2 (fun _ => IQE.F64.nan) (fun _ b => b) == ScalarValue.Float64 IQE.F64.nan
+#guard finalize_min none == ScalarValue.Null
+#guard finalize_max (some (.Utf8 ⟨[0x61]⟩)) == ScalarValue.Utf8 ⟨[0x61]⟩
+#guard merge_arms.length == 11 && merge_arms.getLast? == some "_"
+#guard finalize_arms.length == 10
+example : ¬ merge_count_inRange 9223372036854775807 1 := by
+  simp [merge_count_inRange, Id.run, pure, Rs.I64_MAX, Rs.I64_MIN]
+end
+
+/-! ## Coerce (C30): executor and planner coercion tables -/
+section
+open IQE.Gen.Coerce
+def okTy : Except String DataType → Option DataType | .ok t => some t | .error _ => none
+#guard okTy (exec_coerce .Int32 .Int32) == some .Int32          -- guard arm `(a, b) if a == b`
+#guard okTy (exec_coerce .Int16 .Int8) == some .Int32
+#guard okTy (exec_coerce .Int8 .Float32) == some .Float64
+#guard okTy (exec_coerce .Utf8 .Date32) == some .Date32
+#guard okTy (exec_coerce .Boolean .Date32) == none
+#guard okTy (exec_coerce (.Decimal128 10 2) (.Decimal128 10 2)) == some (.Decimal128 10 2)
+#guard plan_coerce .Int32 .Int32 == .Int32
+#guard plan_coerce .Int16 .Int8 == .Int32
+#guard plan_coerce (.Decimal128 10 2) .Int8 == .Decimal128 38 10
+#guard plan_coerce .Utf8 .Utf8 == .Float64
+end
+
+/-! ## PruningInt (C05): the exact-integer "definitely" table -/
+section
+open IQE.Gen.PruningInt
+#guard definite_table_int .Lt 1 5 6 == true
+#guard definite_table_int .Lt 1 5 5 == false
+#guard definite_table_int .LtEq 1 5 5 == true
+#guard definite_table_int .Gt 1 5 0 == true
+#guard definite_table_int .GtEq 1 5 1 == true
+#guard definite_table_int .Eq 4 4 4 == true
+#guard definite_table_int .Eq 4 5 4 == false
+#guard definite_table_int .NotEq 1 5 6 == true
+#guard definite_table_int .NotEq 1 5 3 == false
+#guard definite_table_int .Or 1 5 3 == false
+#guard definite_table_int .LtEq 5 9007199254740993 9007199254740992 == false
+end
+
+/-! ## MembershipGen (C15): record_up / record_down steps -/
+section
+open IQE.Gen.MembershipGen
+#guard up_was_down .Unknown && up_was_down .Down && !up_was_down .Up
+#guard down_was_up .Up && !down_was_up .Down && !down_was_up .Unknown
+#guard up_status == .Up && down_status == .Down && up_failures == 0
+#guard down_failures 0 == 1 && down_failures 4294967295 == 4294967295 && down_failures 4294967294 == 4294967295
+#guard up_generation 7 == 8 && down_generation 0 == 1
 end
